@@ -619,7 +619,7 @@ func execC02(p *C02Plan, rc *simkit.RunCtx) {
 			amb := s.boundary(prefix)
 			for n := range want {
 				if !got[n] {
-					rc.Fail("C02.query-missing", "query did not yield a visible matching record ("+s.p.Backend+prefixNote(prefix)+")"+s.cfgNote(),
+					rc.Fail("C02.query-missing", "query did not yield a visible matching record ("+s.p.Backend+prefixNote(prefix)+")"+s.cfgNote()+s.bypassNote(),
 						fmt.Sprintf("%s: prefix %q cond %s: missing %s (got %v want %v)", when, prefix, condStr(op.Cond), n, keysOf(got), keysOf(want)))
 					return
 				}
